@@ -71,6 +71,7 @@ func init() {
 		"(reflect.Value).Call":            ext۰reflect۰Value۰Call,
 		"(reflect.Value).Convert":         ext۰reflect۰Value۰Convert,
 		"(reflect.Value).Recv":            ext۰reflect۰Value۰Recv,
+		"(reflect.Value).Method":          ext۰reflect۰Value۰Method,
 		"(reflect.Value).TryRecv":         ext۰reflect۰Value۰TryRecv,
 		"(reflect.Value).Pointer":         ext۰reflect۰Value۰Pointer,
 		"(reflect.Value).Set":             ext۰reflect۰Value۰Set,
